@@ -176,16 +176,18 @@ async def roundtrip(case):
 
 def body_roundtrip(rep, case, sub="roundtrip"):
     zone = case["zone"]
-    y, mo, d, h, mi, s = case["now"]
+    y, mo, d, h, mi, s = case["now"][:6]
+    micro = case["now"][6] if len(case["now"]) > 6 else 0        # the seconds and the sub-second part of "now" must not leak
     near = case.get("near", False)
-    with vclock.frozen(zone, y, mo, d, h, mi, s) as dest:
+    with vclock.frozen(zone, y, mo, d, h, mi, s, micro=micro) as dest:
         today = dest.astimezone(vclock.zone(zone)).date()
         for t in (case["start"], case["end"]):
             if not vclock.candidates(zone, today, int(t[:2]), int(t[3:])):
                 rep.label("nonexistent-local-time-skipped")
                 return
         rep.tick(sub, key=case, nontrivial=zone != "UTC" or near, sample=case,
-                 labels=("near-transition" if near else "ordinary-date", f"days={len(case['days'])}"))
+                 labels=("near-transition" if near else "ordinary-date", f"days={len(case['days'])}",
+                         "now-in-last-half-second-of-a-minute" if s == 59 and micro >= 500_000 else "now-elsewhere-in-the-minute"))
         phase, status, res, rec = net.run(roundtrip(case))
         if status != "ok":
             raise Violation(f"C10/roundtrip/{phase}-fails/{type(res).__name__ if res is not None else status}", case,
@@ -264,10 +266,11 @@ def strat_roundtrip(tier):
     def for_date(t):
         z, (y, mo, d), near = t
         return st.builds(
-            lambda now_s, start, end, days, slot, dev, form: dict({"zone": z, "now": [y, mo, d, now_s // 3600, now_s // 60 % 60, now_s % 60],
+            lambda now_s, micro, start, end, days, slot, dev, form: dict({"zone": z, "now": [y, mo, d, now_s // 3600, now_s // 60 % 60, now_s % 60] + ([micro] if micro else []),
                                                                    "start": start, "end": end, "days": days, "near": near, "slot": slot,
                                                                    "device_id": dev}, **({"days_form": form} if form != "set" and days else {})),
-            st.sampled_from([30, 43200, 86370, 21 * 3600 + 1800, 3 * 3600]), EARLY, EARLY, gen.day_sets, st.integers(0, 255), gen.device_ids,
+            st.sampled_from([30, 43200, 86370, 21 * 3600 + 1800, 3 * 3600, 86399, 12 * 3600 + 59, 2 * 3600 + 1859]),
+            st.sampled_from([0, 0, 1, 499_999, 500_000, 999_999]), EARLY, EARLY, gen.day_sets, st.integers(0, 255), gen.device_ids,
             st.sampled_from(["set", "set", "frozenset", "list", "tuple"]))
     return lambda: st.sampled_from(pool).flatmap(for_date)
 
